@@ -81,7 +81,15 @@ pub fn adss(tier: &str, seed: u64) {
     let cnt = if t > 200 { 1 } else { g.range(1, (t as u64 + 2).min(if quick(tier) { 8 } else { 30 })) as usize };
     let mut shares = Vec::new();
     for _ in 0..cnt {
-      let sh = c.clone().share().expect("share");
+      // sharing never fails for a threshold >= 1... whatever the message and coins are; a refusal is
+      // an answer the model does not give
+      let sh = match c.clone().share() {
+        Ok(s) => s,
+        Err(_) => {
+          emit(&format!("adss.share {} {} {} {} {}", t, hex(&m), hex(&r), trs, hex(&[0u8; 24])), "err:refused");
+          continue;
+        }
+      };
       let b = sh.to_bytes();
       emit(&format!("adss.share {} {} {} {} {}", t, hex(&m), hex(&r), trs, hex(&share_x(&b))), &format!("ok {}", hex(&b)));
       shares.push(sh);
@@ -94,7 +102,11 @@ pub fn adss(tier: &str, seed: u64) {
       let order: &[bool] = if custom { &[false, true, false] } else { &[true, false, true, false] };
       for &use_custom in order {
         let cc = Commune::new(t, m.clone(), r.clone(), if use_custom { Some(tr2.clone()) } else { None });
-        let b = cc.share().expect("share").to_bytes();
+        let Ok(sh2) = cc.share() else {
+          emit(&format!("adss.share {} {} {} {} {}", t, hex(&m), hex(&r), if use_custom { trs2.as_str() } else { "-" }, hex(&[0u8; 24])), "err:refused");
+          continue;
+        };
+        let b = sh2.to_bytes();
         emit(
           &format!("adss.share {} {} {} {} {}", t, hex(&m), hex(&r), if use_custom { trs2.as_str() } else { "-" }, hex(&share_x(&b))),
           &format!("ok {}", hex(&b)),
@@ -141,9 +153,15 @@ pub fn adss(tier: &str, seed: u64) {
         2 => {
           // foreign share from another sharing in a random position
           let c2 = Commune::new(t.max(1), g.blob(8), g.blob(8), None);
-          let f = c2.share().unwrap().to_bytes();
-          let pos = g.below(bs.len() as u64 + 1) as usize;
-          bs.insert(pos, f);
+          let (m2, r2) = (c2.get_message(), Vec::<u8>::new());
+          match c2.share() {
+            Ok(s) => {
+              let f = s.to_bytes();
+              let pos = g.below(bs.len() as u64 + 1) as usize;
+              bs.insert(pos, f);
+            }
+            Err(_) => emit(&format!("adss.share {} {} {} - {}", t.max(1), hex(&m2), hex(&r2), hex(&[0u8; 24])), "err:refused"),
+          }
           stat("adss.forged.foreign");
         }
         3 => {
